@@ -96,6 +96,12 @@ def sortedBy {α κ} (lt : κ → κ → Bool) (key : α → κ) (xs : List α) 
 /-- a token constructor call `Cls(start, end, value)` read as the triple of its arguments -/
 def tok3 (start stop : Int) (value : List Nat) : Int × Int × List Nat := (start, stop, value)
 
+/-- `range(a, b)` -/
+def range (a b : Int) : List Int := (List.range (b - a).toNat).map (fun (i : Nat) => a + (i : Int))
+
+/-- a token constructor call `Cls(start, end)` read as the pair of its arguments -/
+def tok2 (start stop : Int) : Int × Int := (start, stop)
+
 /-- `min(a, b)` / `max(a, b)` on ints -/
 def imin (a b : Int) : Int := if b < a then b else a
 def imax (a b : Int) : Int := if b > a then b else a
